@@ -480,13 +480,15 @@ type dlParams struct {
 	Target  int // 0 nil, 1 never spawned, 2 stopped, 3 foreign address
 	Msg     int // 0 int, 1 string, 2 pointer to struct
 	Sender  bool
-	Subs    int // 0 one monitor, 1 two monitors, 2 monitor + gone subscriber
+	Subs    int // 0 one monitor, 1 two monitors, 2 monitor + a subscriber that stopped earlier without unsubscribing, 3 monitor + a subscriber that stops without unsubscribing right before the sends
 	Threads int
 	PerT    int
+	Op      int  // 0 Send/SendWithSender, 1 Poison, 2 Stop, 3 SendLocal
+	Remote  bool // the engine has a remote (its address is not "local"); foreign targets then go to the remote instead of producing an event
 }
 
 func (p dlParams) String() string {
-	return fmt.Sprintf("tgt%dmsg%dsnd%vsubs%dT%dx%d", p.Target, p.Msg, p.Sender, p.Subs, p.Threads, p.PerT)
+	return fmt.Sprintf("tgt%dmsg%dsnd%vsubs%dT%dx%dop%drem%v", p.Target, p.Msg, p.Sender, p.Subs, p.Threads, p.PerT, p.Op, p.Remote)
 }
 
 type dlPayload struct{ N int }
@@ -498,9 +500,32 @@ func engDeadLetter(variants []dlParams) vsched.Instance {
 	nsent := 0
 	var target, sender *actor.PID
 	var msgs []any
+	var pool []poolMsg
+	ctxNotDone := 0
+	addr := "local"
 	body := func() {
 		p = variants[chooseVariant(len(variants))]
-		k = NewKit()
+		if p.Remote {
+			addr = "10.0.0.1:4000"
+			vsched.BeginSetup()
+			k = &Kit{inRecv: map[string]bool{}, exitVC: map[string]vsched.VC{}, incs: map[string]int{}}
+			e, err := actor.NewEngine(actor.NewEngineConfig().WithRemote(&poolRemoter{addr: addr, pool: &pool}))
+			if err != nil {
+				panic(err)
+			}
+			k.E = e
+			k.MonPID = e.SpawnFunc(func(c *actor.Context) {
+				switch c.Message().(type) {
+				case actor.Initialized, actor.Started, actor.Stopped:
+					return
+				}
+				k.add(Ev{Kind: "event", Actor: "mon", Msg: Render(c.Message()), Raw: c.Message()})
+			}, "mon", actor.WithID("1"))
+			e.Subscribe(k.MonPID)
+		} else {
+			k = NewKit()
+		}
+		var gone *actor.PID
 		switch p.Subs {
 		case 1:
 			m2 := k.E.SpawnFunc(func(c *actor.Context) {
@@ -512,15 +537,17 @@ func engDeadLetter(variants []dlParams) vsched.Instance {
 				mon2 = append(mon2, Render(c.Message()))
 			}, "mon", actor.WithID("2"))
 			k.E.Subscribe(m2)
-		case 2:
-			g := k.E.SpawnFunc(func(c *actor.Context) {}, "gone", actor.WithID("1"))
-			k.E.Subscribe(g)
+		case 2, 3:
+			gone = k.E.SpawnFunc(func(c *actor.Context) {}, "gone", actor.WithID("1"))
+			k.E.Subscribe(gone)
 			vsched.Quiesce()
-			vsched.Recv(k.E.Poison(g).Done())
+			if p.Subs == 2 {
+				vsched.Recv(k.E.Poison(gone).Done())
+			}
 		}
 		switch p.Target {
 		case 1:
-			target = actor.NewPID("local", "never/1")
+			target = actor.NewPID(addr, "never/1")
 		case 2:
 			target = k.E.SpawnFunc(func(c *actor.Context) {}, "stopped", actor.WithID("1"))
 			vsched.Quiesce()
@@ -529,12 +556,15 @@ func engDeadLetter(variants []dlParams) vsched.Instance {
 			target = actor.NewPID("10.0.0.9:4000", "far/1")
 		}
 		if p.Sender {
-			sender = actor.NewPID("local", "snd/1")
+			sender = actor.NewPID(addr, "snd/1")
 		}
 		vsched.EndSetup()
 		// forget what the setup produced
 		k.Log = nil
 		mon2 = nil
+		if p.Subs == 3 {
+			vsched.Recv(k.E.Poison(gone).Done())
+		}
 		for t := 0; t < p.Threads; t++ {
 			t := t
 			vsched.Go("sender", func() {
@@ -551,14 +581,30 @@ func engDeadLetter(variants []dlParams) vsched.Instance {
 					vsched.Touch("sends")
 					msgs = append(msgs, m)
 					nsent++
-					if sender != nil {
-						k.E.SendWithSender(target, m, sender)
-					} else {
-						k.E.Send(target, m)
+					switch p.Op {
+					case 0:
+						if sender != nil {
+							k.E.SendWithSender(target, m, sender)
+						} else {
+							k.E.Send(target, m)
+						}
+					case 1:
+						if k.E.Poison(target).Err() == nil {
+							ctxNotDone++
+						}
+					case 2:
+						if k.E.Stop(target).Err() == nil {
+							ctxNotDone++
+						}
+					case 3:
+						k.E.SendLocal(target, m, sender)
 					}
 				}
 			})
 		}
+		vsched.Quiesce()
+		// the event stream and its subscriptions must have survived: one more undeliverable send
+		k.E.Send(actor.NewPID(addr, "probe/1"), 424242)
 		vsched.Quiesce()
 	}
 	check := func(r *vsched.Result) []vsched.Violation {
@@ -576,26 +622,28 @@ func engDeadLetter(variants []dlParams) vsched.Instance {
 		if bl := blockedExcept(r); len(bl) > 0 {
 			return append(vs, V("blocked/sender-or-engine-thread-blocked", "%s: %v", p, bl))
 		}
-		want := []string{}
+		want := []string{fmt.Sprintf("DeadLetter(%s/probe/1,m424242,)", addr)}
+		if p.Subs == 3 {
+			want = append(want, fmt.Sprintf("ActorStopped(%s/gone/1)", addr))
+		}
 		for _, m := range msgs {
-			switch p.Target {
-			case 1, 2:
-				want = append(want, fmt.Sprintf("DeadLetter(%s,%s,%s)", pidStr(target), Render(m), pidStr(sender)))
-			case 3:
-				want = append(want, fmt.Sprintf("EngineRemoteMissing(%s,%s,%s)", pidStr(target), Render(m), pidStr(sender)))
+			rm, snd := Render(m), pidStr(sender)
+			if p.Op == 1 || p.Op == 2 {
+				rm, snd = "poisonPill", ""
+			}
+			switch {
+			case p.Op == 1 || p.Op == 2 || p.Op == 3:
+				// a stop request / SendLocal looks the id up in the local registry whatever the address is
+				want = append(want, fmt.Sprintf("DeadLetter(%s,%s,%s)", pidStr(target), rm, snd))
+			case p.Target == 1 || p.Target == 2:
+				want = append(want, fmt.Sprintf("DeadLetter(%s,%s,%s)", pidStr(target), rm, snd))
+			case p.Target == 3 && !p.Remote:
+				want = append(want, fmt.Sprintf("EngineRemoteMissing(%s,%s,%s)", pidStr(target), rm, snd))
 			}
 		}
 		sort.Strings(want)
 		cmp := func(name string, got []string) {
-			// with a gone subscriber every forward to it is itself undeliverable and legitimately
-			// surfaces as a DeadLetter addressed to the gone PID: those are not about our sends
-			var mine []string
-			for _, g := range got {
-				if p.Subs == 2 && strings.HasPrefix(g, "DeadLetter(local/gone/1,") {
-					continue
-				}
-				mine = append(mine, g)
-			}
+			mine := append([]string{}, got...)
 			sort.Strings(mine)
 			if fmt.Sprint(mine) != fmt.Sprint(want) {
 				sig := "events/wrong-events-for-undeliverable-sends"
@@ -611,8 +659,14 @@ func engDeadLetter(variants []dlParams) vsched.Instance {
 		if p.Subs == 1 {
 			cmp("monitor2", mon2)
 		}
+		if ctxNotDone > 0 {
+			vs = append(vs, V("stop/ctx-not-done-for-unregistered-target", "%s: %d stop requests for an unregistered PID returned a context that was not done", p, ctxNotDone))
+		}
+		if p.Remote && p.Target == 3 && p.Op == 0 && len(pool) != len(msgs) {
+			vs = append(vs, V("remote/foreign-send-not-handed-to-remote", "%s: %d of %d messages reached the remote", p, len(pool), len(msgs)))
+		}
 		// pointer identity of the message is preserved
-		if p.Msg == 2 && (p.Target == 1 || p.Target == 2) {
+		if p.Msg == 2 && p.Op == 0 && (p.Target == 1 || p.Target == 2) {
 			for _, e := range k.Log {
 				if d, ok := e.Raw.(actor.DeadLetterEvent); ok && e.Kind == "event" {
 					found := false
